@@ -126,6 +126,11 @@ def events(rng, homs):
                 Jf = [x for row in J for x in row]
                 mk = lambda m=m, c=c, J=J: SpatialInertia(float(m), np.array(c, dtype=float), np.array(J, dtype=float))   # noqa: E731
                 yield "inertia", {"m": m, "c": c, "J": Jf}, 1.0, (lambda mk=mk: mk().A), "SpatialInertia(m,c,I)"
+                # light / heavy bodies: mass and rotational inertia scaled together (the matrix scales with them)
+                for sm in (1e-9, 1e-6, 1e6):
+                    yield "inertia", {"m": m, "c": c, "J": Jf}, 1.0 / sm, \
+                        (lambda m=m, c=c, J=J, sm=sm: SpatialInertia(float(m) * sm, np.array(c, dtype=float), np.array(J, dtype=float) * sm).A), \
+                        "SpatialInertia(m,c,I) mass-scale=%g" % sm
                 for a in pts[6:10] + basis[:2]:
                     A = np.array(a, dtype=float)
                     yield "inertia_mul", {"m": m, "c": c, "J": Jf, "a": a}, 1.0, \
